@@ -28,6 +28,47 @@ pub struct TestRunnerAdapter {
     event_sender: Sender<MachineEvent>,
     event_receiver: Receiver<MachineEvent>,
     breakpoints: Arc<Mutex<Vec<MachineBreakpoint>>>,
+    test_case_path: IdentifierPath,
+}
+
+/// When a test has ended, tells the client how it ended and disconnects the machine
+fn report_test_end(
+    result: ExecuteResult,
+    test_case_path: &IdentifierPath,
+    sender: &Sender<MachineEvent>,
+    is_connected: &AtomicBool,
+) {
+    match result {
+        ExecuteResult::Running => {}
+        ExecuteResult::TestFailed(cycles, failure) => {
+            let _ = sender.send(MachineEvent::Message {
+                output: format!(
+                    "test {} {} {}: {}\n{}",
+                    test_case_path,
+                    paint(true, Colour::Red, "FAILED"),
+                    paint(true, Colour::Yellow, format!("({} cycles)", cycles)),
+                    failure.diagnostic,
+                    format_cpu_details(&failure.cpu, true)
+                ),
+                location: failure.diagnostic.location(),
+            });
+            let _ = sender.send(MachineEvent::Disconnected);
+            is_connected.store(false, Ordering::Relaxed);
+        }
+        ExecuteResult::TestSuccess(cycles) => {
+            let _ = sender.send(MachineEvent::Message {
+                output: format!(
+                    "test {} {} {}",
+                    test_case_path,
+                    paint(true, Colour::Green, "ok"),
+                    paint(true, Colour::Yellow, format!("({} cycles)", cycles))
+                ),
+                location: None,
+            });
+            let _ = sender.send(MachineEvent::Disconnected);
+            is_connected.store(false, Ordering::Relaxed);
+        }
+    }
 }
 
 impl TestRunnerAdapter {
@@ -149,45 +190,12 @@ impl TestRunnerAdapter {
                                     // Give rest of core a chance to do something
                                     thread::sleep(Duration::from_millis(0));
 
-                                    match result {
-                                        ExecuteResult::Running => {}
-                                        ExecuteResult::TestFailed(cycles, failure) => {
-                                            let _ = thread_sender.send(MachineEvent::Message {
-                                                output: format!(
-                                                    "test {} {} {}: {}\n{}",
-                                                    thread_test_case_path,
-                                                    paint(true, Colour::Red, "FAILED"),
-                                                    paint(
-                                                        true,
-                                                        Colour::Yellow,
-                                                        format!("({} cycles)", cycles)
-                                                    ),
-                                                    failure.diagnostic,
-                                                    format_cpu_details(&failure.cpu, true)
-                                                ),
-                                                location: failure.diagnostic.location(),
-                                            });
-                                            let _ = thread_sender.send(MachineEvent::Disconnected);
-                                            thread_is_connected.store(false, Ordering::Relaxed);
-                                        }
-                                        ExecuteResult::TestSuccess(cycles) => {
-                                            let _ = thread_sender.send(MachineEvent::Message {
-                                                output: format!(
-                                                    "test {} {} {}",
-                                                    thread_test_case_path,
-                                                    paint(true, Colour::Green, "ok"),
-                                                    paint(
-                                                        true,
-                                                        Colour::Yellow,
-                                                        format!("({} cycles)", cycles)
-                                                    )
-                                                ),
-                                                location: None,
-                                            });
-                                            let _ = thread_sender.send(MachineEvent::Disconnected);
-                                            thread_is_connected.store(false, Ordering::Relaxed);
-                                        }
-                                    }
+                                    report_test_end(
+                                        result,
+                                        &thread_test_case_path,
+                                        &thread_sender,
+                                        &thread_is_connected,
+                                    );
                                 }
                                 Err(e) => {
                                     log::error!("Error when executing instructions: {}", e);
@@ -211,6 +219,7 @@ impl TestRunnerAdapter {
             event_sender,
             event_receiver,
             breakpoints,
+            test_case_path: test_case_path.clone(),
         })
     }
 
@@ -318,11 +327,11 @@ impl MachineAdapter for TestRunnerAdapter {
     }
 
     fn next(&mut self) -> MosResult<()> {
-        {
+        let result = {
             let mut runner = self.runner.write().unwrap();
             #[cfg(datatrash_mos_verif)]
             let verif_pc0 = runner.cpu().get_program_counter();
-            runner.step_over()?;
+            let result = runner.step_over()?;
             #[cfg(datatrash_mos_verif)]
             crate::verif_dbg::event(
                 "s_exec",
@@ -333,17 +342,27 @@ impl MachineAdapter for TestRunnerAdapter {
                     runner.num_cycles()
                 ),
             );
+            result
+        };
+        match result {
+            ExecuteResult::Running => self.pause()?,
+            // The step has ended the test (a failing assertion, or the end of the test was reached)
+            result => report_test_end(
+                result,
+                &self.test_case_path,
+                &self.event_sender,
+                &self.is_connected,
+            ),
         }
-        self.pause()?;
         Ok(())
     }
 
     fn step_in(&mut self) -> MosResult<()> {
-        {
+        let result = {
             let mut runner = self.runner.write().unwrap();
             #[cfg(datatrash_mos_verif)]
             let verif_pc0 = runner.cpu().get_program_counter();
-            runner.execute_instruction()?;
+            let result = runner.execute_instruction()?;
             #[cfg(datatrash_mos_verif)]
             crate::verif_dbg::event(
                 "s_exec",
@@ -354,17 +373,27 @@ impl MachineAdapter for TestRunnerAdapter {
                     runner.num_cycles()
                 ),
             );
+            result
+        };
+        match result {
+            ExecuteResult::Running => self.pause()?,
+            // The step has ended the test (a failing assertion, or the end of the test was reached)
+            result => report_test_end(
+                result,
+                &self.test_case_path,
+                &self.event_sender,
+                &self.is_connected,
+            ),
         }
-        self.pause()?;
         Ok(())
     }
 
     fn step_out(&mut self) -> MosResult<()> {
-        {
+        let result = {
             let mut runner = self.runner.write().unwrap();
             #[cfg(datatrash_mos_verif)]
             let verif_pc0 = runner.cpu().get_program_counter();
-            runner.step_out()?;
+            let result = runner.step_out()?;
             #[cfg(datatrash_mos_verif)]
             crate::verif_dbg::event(
                 "s_exec",
@@ -375,8 +404,18 @@ impl MachineAdapter for TestRunnerAdapter {
                     runner.num_cycles()
                 ),
             );
+            result
+        };
+        match result {
+            ExecuteResult::Running => self.pause()?,
+            // The step has ended the test (a failing assertion, or the end of the test was reached)
+            result => report_test_end(
+                result,
+                &self.test_case_path,
+                &self.event_sender,
+                &self.is_connected,
+            ),
         }
-        self.pause()?;
         Ok(())
     }
 
